@@ -4,7 +4,8 @@
 (* request sets that TLC explores exhaustively and emits for replay.         *)
 (* Which (CONSTANT) selects the pair of element types of the configuration:  *)
 (*   tag 1: T1[3]  auto-allocated in the Message Router  (2/1/1)             *)
-(*   tag 2: T1     scalar, auto-allocated                 (2/1/2)             *)
+(*   tag 2: T1     scalar, auto-allocated                 (2/1/2) -- or, with Foreign = TRUE, bound to @2/5/1: ANOTHER   *)
+(*          instance of the Message Router's class                                                                   *)
 (*   tag 3: T2[2]  bound to @153/1/2                                          *)
 (*   tag 4: T2[1]  bound to @153/1/3  (same instance, next attribute) -- or, with Foreign = TRUE, to @1/1/11: an    *)
 (*          extra attribute of the Identity object, a CIP object that does not understand the Logix tag services  *)
@@ -18,11 +19,12 @@ CONSTANTS T1, T2, Budget, Depth, Rich,  \* Rich: TRUE = larger request set
 
 Chars(s) == s
 ManyCfg == [ budget |-> Budget,
-             tags |-> [ i \in 1 .. 12 |-> [name |-> <<64 + i>>, type |-> (IF i % 3 = 0 THEN T2 ELSE T1),
+             \* (two names that differ only by a Latin-1 sharp s vs "ss": distinct tags)
+             tags |-> [ i \in 1 .. 12 |-> [name |-> (IF i = 11 THEN <<77, 97, 223>> ELSE IF i = 12 THEN <<77, 97, 115, 115>> ELSE <<64 + i>>), type |-> (IF i % 3 = 0 THEN T2 ELSE T1),
                                            len |-> (IF i % 2 = 0 THEN 1 ELSE 2), scalar |-> (i % 2 = 0), cia |-> <<2, 1, i>>] ] ]
 FourCfg == [ budget |-> Budget,
           tags |-> << [name |-> <<65>>,        type |-> T1, len |-> 3, scalar |-> FALSE, cia |-> <<2, 1, 1>>],
-                      [name |-> <<66, 98>>,    type |-> T1, len |-> 1, scalar |-> TRUE,  cia |-> <<2, 1, 2>>],
+                      [name |-> <<66, 98>>,    type |-> T1, len |-> 1, scalar |-> TRUE,  cia |-> (IF Foreign THEN <<2, 5, 1>> ELSE <<2, 1, 2>>)],
                       [name |-> <<67, 95, 51>>, type |-> T2, len |-> 2, scalar |-> FALSE, cia |-> <<153, 1, 2>>],
                       [name |-> <<68>>,        type |-> T2, len |-> 1, scalar |-> FALSE, cia |-> (IF Foreign THEN <<1, 1, 11>> ELSE <<153, 1, 3>>)] >> ]
 
@@ -74,6 +76,8 @@ TagReqs(t) ==
 
 UnknownReqs == { R("read", 0, "sym", 0 - 1, 1, 0, T1, <<>>, <<>>),
                  R("write", 0, "sym", 0, 1, 0, T1, ValSeq(T1, 1, 1), <<>>) }
+               \cup UNION { { R("read", 0, md, ix, 1, 0, T1, <<>>, <<>>), R("write", 0, md, ix, 1, 0, T1, ValSeq(T1, 1, 1), <<>>),
+                             R("readf", 0, md, ix, 1, 0, T1, <<>>, <<>>) } : md \in {"noinst", "noclass"}, ix \in {0 - 1, 0} }
 
 \* many-tags configuration: whole-tag reads and writes of every tag, both addressing modes
 ManyReqs == UNION { { R("read", t, m, 0 - 1, MCfg.tags[t].len, 0, MCfg.tags[t].type, <<>>, <<>>) : m \in {"sym", "cia"} }
@@ -108,6 +112,10 @@ CoreOf(t) ==
           R("sas", t, "cia", 0 - 1, 0, 0, U, <<>>, EncElems(U, ValSeq(U, L, 2))) })
 \* ... and a member served by another kind of object (Get Attribute Single on the Identity object's attribute of tag 4)
 CoreReqs == CoreOf(1) \cup CoreOf(3) \cup { R("read", 0, "sym", 0 - 1, 1, 0, T1, <<>>, <<>>) }
+            \* members addressed numerically to an instance that does not exist (attribute 1 exists in @2/1: must not be served from there)
+            \cup { R("read", 0, "noinst", 0 - 1, 1, 0, T1, <<>>, <<>>), R("write", 0, "noinst", 0, 1, 0, T1, ValSeq(T1, 1, 1), <<>>) }
+            \* members for the tag living in another instance of the Message Router's class
+            \cup (IF Many \/ ~Foreign THEN {} ELSE { R("read", 2, "sym", 0 - 1, 1, 0, T1, <<>>, <<>>), R("write", 2, "sym", 0 - 1, 1, 0, T1, ValSeq(T1, 1, 2), <<>>) })
             \cup (IF Many \/ ~Foreign \/ Size(MCfg.tags[4].type) = 0 THEN {} ELSE { R("gas", 4, "cia", 0 - 1, 0, 0, MCfg.tags[4].type, <<>>, <<>>) })
 
 Multi(ms) == [svc |-> "multi", tag |-> 0, mode |-> "sym", idx |-> 0 - 1, n |-> 0, off |-> 0, typ |-> T1, vals |-> <<>>,
